@@ -14,6 +14,7 @@ CONSTANTS
   HashMode = "ordered"
   SFSMode = "copies"
   VectorMode = "copies"
+  MaskMode = "setter"
   KernelMode = "stateless"
   MaxTable = 100000
 SPECIFICATION Spec
